@@ -26,6 +26,7 @@ type Scenario struct {
 	Slots   []string   `json:"slots"`            // child slots offered per parent (default a,b,H)
 	Attach  []int      `json:"attach,omitempty"` // base worlds: base heights (relative to base tip, <= 0) where forks may start
 	Probes  bool       `json:"probes"`           // add duplicate / orphan submissions as operations
+	OnlyTipParents int `json:"only_tip_parents,omitempty"` // offer children only for the last k accepted headers (tall prefix chains)
 	ForeignProbes bool `json:"foreign_probes,omitempty"` // offer the synthetic foreign split headers with unknown parents too
 	WorkProbe bool     `json:"work_probe,omitempty"` // add a submission with proof-of-work checking switched on
 	MaxTime time.Duration `json:"-"`
@@ -87,6 +88,9 @@ func (sc *Scenario) enabled(w *hdr.World, hist []hdr.Op) []hdr.Op {
 	}
 	for _, n := range w.Tree.Sorted() {
 		parents = append(parents, n.Label)
+	}
+	if sc.OnlyTipParents > 0 && len(parents) > sc.OnlyTipParents {
+		parents = parents[len(parents)-sc.OnlyTipParents:]
 	}
 	if newCount < sc.N {
 		for _, p := range parents {
